@@ -15,7 +15,7 @@ RULE = ('programs from the typed generator (core + aggregation + negation + impl
         '(which the original text is also checked against). Non-trivial = texts differ '
         'and the result is non-empty; distinct by (variant text, predicate).')
 ASSUMPTIONS = ['reference evaluator lv/ref.py arbitrates', 'CPython sqlite3']
-OPTS = dict(p_colnames=0.0, p_in_lit_left=0.15, p_neg=0.25, p_agg=0.3, p_distinct=0.35, p_impl=0.15,
+OPTS = dict(p_colnames=0.15, p_head_perm=0.25, p_in_lit_left=0.15, p_neg=0.25, p_agg=0.3, p_distinct=0.35, p_impl=0.15,
             p_null_fact=0.0, p_or=0.3, p_fcall=0.12, p_short=0.6, p_value=0.45,
             agg_ops=('Sum', 'Min', 'Max', '+'),
             n_idb=(2, 3), nest_depth=2)
@@ -77,7 +77,7 @@ def check_variant(prog, cls, target, text0=None):
             # C01/C02's.
             if st0 == 'fail' and ':quirk:' not in (b0 or ''):
                 st2, b2, d2 = common.compiled_vs(cols, exp, text2, pred, rules2,
-                                                 quirk_prog=prog)
+                                                 quirk_prog=prog, cols_any_order=True)
                 if st2 == 'ok':
                     res.append(('fail', cls + ':original_differs:' + b0,
                                 'variant form (agrees with reference):\n%s\noriginal: %s'
@@ -85,7 +85,8 @@ def check_variant(prog, cls, target, text0=None):
                     continue
             res.append(('inconclusive', 'base_' + (b0 or st0).split(':')[0], '', pred, []))
             continue
-        st2, b2, d2 = common.compiled_vs(cols, exp, text2, pred, rules2, quirk_prog=prog)
+        st2, b2, d2 = common.compiled_vs(cols, exp, text2, pred, rules2, quirk_prog=prog,
+                                             cols_any_order=True)
         if st2 == 'ok':
             res.append(('ok', None, '', pred, labels + (['nonempty'] if exp else ['empty'])))
         elif st2 == 'inconclusive':
